@@ -44,7 +44,48 @@ def plan_arith(pid, tier, seed):
     )
 
 
+def plan_conv(pid, tier, seed):
+    topics = {"C03": ("cmp,ord", "cmp,cmpf,ord"), "C04": ("conv,bool,from", "conv,bool,from"),
+              "C05": (None, "f2x,x2f"), "C10": ("codec", "codec")}[pid]
+    n = "30" if tier == "quick" else "400"
+    gens = []
+    if topics[0]:
+        gens.append(dict(name="w8", profile="unchecked", bin="conv", dom="int", per_shard=30000,
+                         args=["--topic", topics[0], "--tier", tier, "--seed", str(seed)]))
+    gens.append(dict(name="wide", profile="unchecked", bin="conv", dom="big", per_shard=5000,
+                     args=["--topic", topics[1], "--big", "--tier", tier, "--seed", str(seed), "--n", n]))
+    rules = {
+        "C03": "every ordered pair of the 18 8-bit layouts x (1/64 stratified value pairs + pairwise boundary lattice + values adjacent "
+               "to the other operand; thorough: all 65 536 value pairs); 288 cross-width layout pairs (all 25 width pairs, f in {0,w/2,w} "
+               "and boundary f, mixed signs); every listed layout x 12 primitive integer types, both operand orders; every listed layout x "
+               "f32/f64 patterns (exponents around the layout's range densely, others sampled; mantissa classes; floats adjacent to lattice "
+               "values and ties; +-0, subnormals, infinities, NaNs with payloads), each compared with the nearest fixed values; Ord/Hash "
+               "within one type. Observables ==, !=, <, <=, >, >=, partial_cmp judged against the exact rational comparison CmpVal/CmpFloat.",
+        "C04": "fixed->fixed for all 324 8-bit layout pairs x all 256 values and 288 cross-width pairs, fixed<->12 integer types and bool, "
+               "to_num and from_num call paths, five forms each; From/LossyFrom for ~1100 impls that exist (boundary integer-bit counts).",
+        "C05": "float->fixed: f32/f64 patterns as for C03 x 106 layouts, both call paths, five forms; fixed->float: all values of 8-bit "
+               "layouts, lattice/random and tie patterns (24/53 significant bits +- tails) of wider layouts; results compared bit for bit "
+               "with FixToFloatBits / FloatToFixR (round to nearest even on exact integers).",
+        "C10": "every value of every 8-bit layout; lattice + random values of 88 wider layouts: encode, encoded_size, max_encoded_len, "
+               "decode of exact / every short prefix / long input, to/from le/be/ne bytes, to/from bits, integer encoding, serde JSON "
+               "struct and sequence forms, Wrapping<F> serde.",
+    }
+    return dict(
+        bins=["conv"], profiles=["unchecked"], gens=gens, designs=[],
+        nontrivial=lambda line: '"a":0,' not in line and '"a":[0],' not in line,
+        rule=rules[pid] + " Non-trivial: left operand / source value different from 0; distinct by event content.",
+        assumptions=["TLC, BigInt.tla (self-checked) and the harness's JSON encoders are trusted",
+                     "isize/usize are 64-bit in the harness (x86-64); ne bytes = le bytes on this target",
+                     "wide layouts and floats are covered on generated operands, not exhaustively",
+                     "Wrapping<F> has no SCALE impl in this crate; its encoding is that of the wrapped value (.0)"],
+    )
+
+
 PLANS = {
+    "C03": lambda t, s: plan_conv("C03", t, s),
+    "C04": lambda t, s: plan_conv("C04", t, s),
+    "C05": lambda t, s: plan_conv("C05", t, s),
+    "C10": lambda t, s: plan_conv("C10", t, s),
     "C01": lambda t, s: plan_arith("C01", t, s),
     "C02": lambda t, s: plan_arith("C02", t, s),
     "C06": lambda t, s: plan_arith("C06", t, s),
